@@ -5,8 +5,11 @@ From MevVerif Require Import lib.Bytes model.Semver.
 Import ListNotations.
 Open Scope N_scope.
 
-(* observation: 0 = (false, any error), 1 = (true, nil), 2 = panic *)
-Record case := { id : N; incoming : bytes; hname : bytes; supported : bytes; obs : N }.
+(* kind 0 (function level): observation 0 = (false, any error), 1 = (true, nil), 2 = panic.
+   kind 1 (routing, two real services): [descs] are the (name, version) pairs one node registered with
+   AddStreamHandlers, [incoming] the identifier a connected peer opened; observation 0 = no handler was
+   invoked (the stream could not be opened), k > 0 = the k-th registered handler was invoked, 99 = more than one. *)
+Record case := { id : N; kind : N; descs : list (bytes * bytes); incoming : bytes; hname : bytes; supported : bytes; obs : N }.
 
 Definition agrees (v : verdict) (o : N) : bool :=
   match v with
@@ -15,21 +18,48 @@ Definition agrees (v : verdict) (o : N) : bool :=
   | Unspec => (o =? 0) || (o =? 1)
   end.
 
-Definition mismatches (cs : list case) : list N :=
-  map id (filter (fun c => negb (agrees (match_id (incoming c) (hname c) (supported c)) (obs c))) cs).
+(* routing: verdict of every registered descriptor on the incoming identifier *)
+Definition verdicts (c : case) : list verdict := map (fun d => match_id (incoming c) (fst d) (snd d)) (descs c).
+Definition is_match (v : verdict) : bool := match v with Match => true | _ => false end.
+Definition is_unspec (v : verdict) : bool := match v with Unspec => true | _ => false end.
+Fixpoint index_of_match (vs : list verdict) (k : N) : N :=
+  match vs with [] => 0 | v :: r => if is_match v then k else index_of_match r (k + 1) end.
+(* expected handler: specified only when no verdict is Unspec and at most one descriptor matches *)
+Definition route_expect (c : case) : option N :=
+  let vs := verdicts c in
+  if existsb is_unspec vs then None
+  else match List.length (filter is_match vs) with
+       | O => Some 0
+       | S O => Some (index_of_match vs 1)
+       | _ => None
+       end.
+Definition agrees_case (c : case) : bool :=
+  if kind c =? 0 then agrees (match_id (incoming c) (hname c) (supported c)) (obs c)
+  else match route_expect c with Some k => obs c =? k | None => true end.
+
+Definition mismatches (cs : list case) : list N := map id (filter (fun c => negb (agrees_case c)) cs).
 
 (* The property itself on the implementation's answer: never a panic; on the claimed domain
    (verdict specified) the answer is the rule's. *)
 Definition violation (c : case) : option string :=
-  if obs c =? 2 then Some "panic"%string
-  else match match_id (incoming c) (hname c) (supported c) with
-       | Unspec => None
-       | v => if agrees v (obs c) then None else Some "decision"%string
-       end.
+  if kind c =? 0 then
+    if obs c =? 2 then Some "panic"%string
+    else match match_id (incoming c) (hname c) (supported c) with
+         | Unspec => None
+         | v => if agrees v (obs c) then None else Some "decision"%string
+         end
+  else
+    (* an incoming stream is routed to a handler exactly when the rule matches that handler *)
+    match route_expect c with
+    | Some k => if obs c =? k then None else Some "routing"%string
+    | None => None
+    end.
 
 Definition violations (cs : list case) : list (N * string) :=
   flat_map (fun c => match violation c with Some k => [(id c, k)] | None => [] end) cs.
 
 (* cases on which the model's verdict is specified (the claimed domain) *)
 Definition nontrivial (cs : list case) : list N :=
-  map id (filter (fun c => match match_id (incoming c) (hname c) (supported c) with Unspec => false | _ => true end) cs).
+  map id (filter (fun c => if kind c =? 0
+                           then match match_id (incoming c) (hname c) (supported c) with Unspec => false | _ => true end
+                           else match route_expect c with Some _ => true | None => false end) cs).
